@@ -99,20 +99,22 @@ func str(s string) *string { return &s }
 
 // Layout is one way of writing the same AST as text.
 type Layout struct {
-	Name         string
-	Required     bool // the parser must accept it (style used by the repository's own schemas, or CRLF)
-	Indent       string
-	OneLine      bool // record bodies on one line
-	Blank        int  // blank lines between definitions
-	AttrSameLine bool // [opcode(..)] / [flags] / [deprecated(..)] on the same line as what they annotate
-	Postfix      bool // T[] instead of array[T]
-	CRLF         bool
-	Trailing     bool // trailing spaces at line ends
-	NoFinalNL    bool
-	Tight        bool // no optional spaces
-	BlankInside  bool // blank line between fields
-	Wide         bool // several spaces / tabs between tokens
-	Mixed        int  // 1: array[T][] (outermost dimension postfix, the rest prefix); 2: array[T[]] (outermost prefix, the rest postfix)
+	Name           string
+	Required       bool // the parser must accept it (style used by the repository's own schemas, or CRLF)
+	Indent         string
+	OneLine        bool // record bodies on one line
+	Blank          int  // blank lines between definitions
+	AttrSameLine   bool // [opcode(..)] / [flags] / [deprecated(..)] on the same line as what they annotate
+	BlankAfterAttr bool // an empty line between an attribute and what it annotates
+	Postfix        bool // T[] instead of array[T]
+	CRLF           bool
+	Trailing       bool // trailing spaces at line ends
+	TrailingTab    bool // a trailing TAB at line ends (horizontal whitespace like any other)
+	NoFinalNL      bool
+	Tight          bool // no optional spaces
+	BlankInside    bool // blank line between fields
+	Wide           bool // several spaces / tabs between tokens
+	Mixed          int  // 1: array[T][] (outermost dimension postfix, the rest prefix); 2: array[T[]] (outermost prefix, the rest postfix)
 }
 
 var Layouts = []Layout{
@@ -122,6 +124,7 @@ var Layouts = []Layout{
 	{Name: "two-blanks", Required: true, Indent: "  ", Blank: 2},
 	{Name: "crlf", Required: true, Indent: "    ", Blank: 1, CRLF: true},
 	{Name: "trailing-spaces", Required: true, Indent: "    ", Blank: 1, Trailing: true},
+	{Name: "trailing-tabs", Required: true, Indent: "\t", Blank: 1, TrailingTab: true},
 	{Name: "blank-inside", Required: true, Indent: "    ", Blank: 1, BlankInside: true},
 	{Name: "postfix-arrays", Required: true, Indent: "    ", Blank: 1, Postfix: true},
 	{Name: "no-final-newline", Required: true, Indent: "    ", Blank: 1, NoFinalNL: true},
@@ -134,6 +137,8 @@ var Layouts = []Layout{
 	{Name: "mixed-arrays-outer-prefix", Required: true, Indent: "    ", Blank: 1, Mixed: 2},
 	{Name: "one-line-attr-same-line", Indent: "    ", Blank: 1, OneLine: true, AttrSameLine: true},
 	{Name: "definitions-on-one-line", Indent: "    ", Blank: -1, OneLine: true, AttrSameLine: true},
+	{Name: "blank-line-after-attribute", Indent: "    ", Blank: 1, BlankAfterAttr: true},
+	{Name: "blank-line-after-attribute-crlf", Indent: "\t", Blank: 2, BlankAfterAttr: true, CRLF: true},
 }
 
 type renderer struct {
@@ -162,6 +167,9 @@ func (r *renderer) sep() string {
 func (r *renderer) nl() {
 	if r.l.Trailing {
 		r.sb.WriteString("  ")
+	}
+	if r.l.TrailingTab {
+		r.sb.WriteString("\t")
 	}
 	if r.l.CRLF {
 		r.sb.WriteString("\r\n")
@@ -218,6 +226,9 @@ func (r *renderer) attr(ind, text string) {
 		r.sb.WriteString(" ")
 	} else {
 		r.nl()
+		if r.l.BlankAfterAttr {
+			r.nl()
+		}
 	}
 }
 
